@@ -101,9 +101,16 @@ def pairing(fx, ck):
         # co-occurrence (primitives excluded)
         if path.endswith(("::push_env_guard", "::pop_env_guard", "::push_scope", "::pop_scope", "::find_exception_handler")):
             continue
+        import loops as L
+        loop_blocks = set()
+        for hd, body in L.natural_loops(f):
+            loop_blocks |= body
         for role in ("open", "close"):
-            g = [e for e in ev if e[1] == "G" and e[2] == role and not e[3].endswith("_scope")]
-            s = [e for e in ev if e[1] == "S" and e[2] == role]
+            # scope-level events are not frame events: push_scope/pop_scope, a guard pushed once per element of a collection
+            # (re-entering the block scopes of a resumed generator), and bulk closers (truncate / clear to a remembered depth)
+            g = [e for e in ev if e[1] == "G" and e[2] == role and not e[3].endswith("_scope")
+                 and not (role == "open" and e[0] in loop_blocks) and not e[3].endswith((".truncate", ".clear"))]
+            s = [e for e in ev if e[1] == "S" and e[2] == role and not e[3].endswith((".truncate", ".clear"))]
             if g or s:
                 ok = bool(g) and bool(s)
                 ck.instance("R3.co-occurrence", "%s/%s" % (path, role), F.short_span((g or s)[0][4]), ok=ok)
@@ -238,4 +245,90 @@ def run(tier):
                            "`%s` runs after construction and calls `%s`, which allocates in the permanent root_guard: every call leaves an object that is never freed" % (c, helper))
     ck.assume("objects of loaded modules are meant to live as long as the interpreter (module cache)")
     handler_unwind(fx, ck)
+    run_end_scopes(fx, ck)
     return ck.finish()
+
+
+def run_end_scopes(fx, ck):
+    """R7 / R8: the block scopes a VM run has open when it ends do not stay on the interpreter.
+
+    Every `PushScope` puts a guard on `Interpreter.env_guards` (and the saved environment on the VM's `saved_env_stack`).  A run can end with
+    scopes open in two ways: an error for which no frame has a handler, and a generator's `yield`.
+      R7: the function that gives the error back to the run's caller after the handler search failed unwinds the scopes of the frame it is in
+          (`unwind_scopes_to(.., 0)` or a drain of `saved_env_stack`) before its `Err` return - the caller may be a native function
+          (`forEach`, a getter), which cannot do it.
+      R8: a function that lets a run end in `Yield` (it moves the yielded state into a generator object) brings `env_guards` back to the depth
+          it found on every path after the run: the scopes are re-entered at the resume, which pushes their guards again."""
+    import exits as E
+    from c09 import ancestors
+    ck.rule("R7.uncaught-error-unwinds", "the error dispatcher unwinds the current frame's block scopes before it returns the error to the run's caller", floor=1)
+    disp = [f for f in fx.fns.values() if not f.closure and f.path.startswith("interpreter::bytecode_vm::BytecodeVM::") and
+            any((t[1].get("d") or "").endswith("find_exception_handler") for bi, t in f.calls()) and "Result<(), error::JsError>" in fx.tys(f.locals[0])]
+    ck.anchor(bool(disp), "error dispatcher (calls find_exception_handler, returns Result<(), JsError>)")
+    for f in disp:
+        errs = [bi for bi, bl in enumerate(f.blocks) for st in bl["s"]
+                if st[0] == "a" and st[1][0] == 0 and st[2][0] == "agg" and st[2][1].get("v") == "Err"]
+        unw = set()
+        for bi, t in f.calls():
+            d = t[1].get("d") or ""
+            if d.endswith("unwind_scopes_to") and len(t[2]) > 2 and M.const_int(t[2][2]) == 0:
+                unw.add(bi)
+            if d.endswith(("Vec::<T, A>::pop", "Vec::<T, A>::drain", "Vec::<T, A>::clear")) and t[2] and t[2][0][0] in ("c", "m"):
+                fl = E.field_of_ref(f, t[2][0][1][0])
+                if fl and fl[2] == "saved_env_stack":
+                    unw.add(bi)
+        for eb in errs:
+            # the last unwinding before this return must not be followed by a frame switch (the trampoline loop restores
+            # `saved_env_stack` from the popped frame): require an unwind that dominates the return and is not inside a loop
+            # whose body reassigns saved_env_stack afterwards
+            ok = False
+            for ub in unw:
+                if not f.dominates(ub, eb):
+                    continue
+                reassigned = False
+                for b2 in f.reachable_from(ub):
+                    if b2 == eb or not f.dominates(ub, b2):
+                        continue
+                    for st in f.blocks[b2]["s"]:
+                        if st[0] == "a" and st[1][1] and F.place_fields(st[1]) and F.place_fields(st[1])[-1][2] == "saved_env_stack" and eb in f.reachable_from(b2):
+                            reassigned = True
+                if not reassigned:
+                    ok = True
+            ck.instance("R7.uncaught-error-unwinds", "%s: Err return" % f.path, F.short_span(f.span), ok=ok)
+            if not ok:
+                ck.finding("R7.uncaught-error-unwinds", "R7.uncaught-error-unwinds/%s" % f.path, F.short_span(f.span),
+                           "`%s` returns the error to the run's caller while the block scopes of the frame it ended in are still open: when the caller is a "
+                           "native function their guards stay on `env_guards` for ever (`try { [1].forEach(() => { { let o = {}; throw 0 } }) } catch {}`: "
+                           "+1 live object per run)" % f.path)
+    ck.rule("R8.yield-restores-guard-depth", "a function that lets a run end in Yield truncates env_guards to the depth it found, on every path after the run", floor=2)
+    runs = {p for p in fx.fns if p.endswith("BytecodeVM::run")}
+    for p, f in sorted(fx.fns.items()):
+        if f.closure or not p.startswith("interpreter::Interpreter::"):
+            continue
+        sites = [bi for bi, t in f.calls() if t[1].get("d") in runs]
+        if not sites:
+            continue
+        yields = False
+        for sb, en, place, arms, other, rest in M.enum_switches(fx, f):
+            if en.endswith("VmResult") and "Yield" in arms:
+                region = M.dominated_region(f, arms["Yield"])
+                # the arm keeps the state (it does not just report an internal error)
+                if any(st[0] == "a" and st[1][1] and F.place_fields(st[1]) and "saved_" in F.place_fields(st[1])[-1][2] for b in region for st in f.blocks[b]["s"]):
+                    yields = True
+        if not yields:
+            continue
+        truncs = set()
+        for bi, t in f.calls():
+            d = t[1].get("d") or ""
+            if d.endswith(("Vec::<T, A>::truncate", "Vec::<T, A>::clear")) and t[2] and t[2][0][0] in ("c", "m"):
+                fl = E.field_of_ref(f, t[2][0][1][0])
+                if fl and fl[2] == "env_guards":
+                    truncs.add(bi)
+        for sb in sites:
+            esc = E.escapes(f, sb, truncs)
+            ck.instance("R8.yield-restores-guard-depth", "%s: run at %s" % (p, F.short_span(f.blocks[sb]["t"][6])), F.short_span(f.blocks[sb]["t"][6]), ok=esc is None)
+            if esc is not None:
+                ck.finding("R8.yield-restores-guard-depth", "R8.yield-restores-guard-depth/%s" % p, F.short_span(f.blocks[sb]["t"][6]),
+                           "`%s` runs a generator's VM, which can end with block scopes open (a `yield` inside a block), and returns (%s) without bringing "
+                           "`env_guards` back to the depth it found: the guards of those scopes pile up (`for (..) { let o = {}; yield o }`: +10 live "
+                           "objects per run of the loop)" % (p, E.exit_description(f, esc)))
